@@ -441,6 +441,10 @@ def execute(scratch: str, world: str, raw: dict, turns, tag: str) -> Dict[str, A
         # the world's retrieval vectors are 5-dimensional), which state_digest covers.
         state["_planner_reflection_flag"] = True
         state["memory_index"] = InMemoryIndex()
+        if world == "W2":
+            # W2 carries GEL edges from an earlier GEL-on session; the boot hook would reset state["graph"] (empty snapshot
+            # directory), so it is marked as already booted: snapshots then contain those edges while the gate is closed
+            state["_boot_loaded"] = True
         for i, (agent, text) in enumerate(turns, start=1):
             ctx = W.make_ctx(cfg, agent, i)
             try:
